@@ -519,3 +519,105 @@ Theorem C05_animation_tie_sound :
   amodel c = Some (a_obs c) /\ forallb (aoracle c) (a_rows c) = true /\ a_frames c <> [].
 Proof. exact acheck_zero_sound. Qed.
 Print Assumptions C05_animation_tie_sound.
+
+(** ** ANIMATED draws of the image classes, per style and terminal identity (round 8)
+
+    [BaseImage.draw(animate=True)] ([common.py:1318-1369]) with the steps the styles put before
+    it (iterm2 style on WezTerm with [mix] false: a placeholder formatted like a frame, then
+    the cursor back to the top of the box; kitty style: clearing by z-index on old kitty).
+    Every frame is [_format_render]ed (= [pad] with blanks and the margins of the alignment)
+    to the box [max W' w x max H' h] and drawn from the top-left of the box.  The stream is
+    [Draw.old_anim_stream] with its two cursor returns as parameters
+    ([PadAnimOld.old_anim_stream_by up], [PadAnimOld.pre_by k]); the code is
+    [up = cursor_up] (empty for a distance <= 0), [k = max(pad_height, rendered_height) - 1]. *)
+From TI Require Import model.DrawTie model.PadAnimOld model.PadAnimOldTie proofs.PadAnimOldProofs.
+
+(** for every pre-animation step of the code, clearing, frames, minimum size, alignment,
+    screen the box fits and start row: no frame touches anything outside the box (nor
+    scrolls more than the box needs), and the box finally shows cell for cell what the
+    formatted LAST frame drawn alone from the start position shows *)
+Theorem C05_image_animation_final_is_pad_of_last_frame :
+  forall (W H lm W' H' : Z) (ha va : nat) (w h : Z) (oldk tty : bool) (s : pre_step)
+         (ls1 : list (list tok)) (lss : list (list (list tok))) (t0 : term) (top0 : Z),
+  0 <= lm -> lm + Z.max W' w <= W -> Z.max H' h <= H ->
+  LinesRect all_cells w h ls1 -> (forall ln, In ln ls1 -> Downward ln) ->
+  Forall (LinesRect all_cells w h) lss ->
+  okat t0 (row t0) lm -> top0 <= row t0 < top0 + H ->
+  DrawFinal W H lm top0 t0 tty (Z.max W' w) (Z.max H' h)
+    (pad (Some GSpace) (old_dims W' H' ha va w h) w (joinlf (lastframe ls1 lss)))
+    (old_anim_stream_by cuu tty (Z.max H' h) (pre_of s W' H' ha va w h) (kitty_clear oldk)
+       (format_render W' H' ha va w h (joinlf ls1))
+       (map (fun ls => format_render W' H' ha va w h (joinlf ls)) lss)).
+Proof. exact old_animation_final_is_pad. Qed.
+Print Assumptions C05_image_animation_final_is_pad_of_last_frame.
+
+(** [old_anim_stream_by cursor_up] with [pre_of] is the stream of [model/Draw.v] *)
+Theorem C05_image_animation_stream_is_draw_model :
+  forall tty lines pre clear P1 Ps,
+  old_anim_stream_by cuu tty lines pre clear P1 Ps = old_anim_stream tty lines pre clear P1 Ps.
+Proof. exact old_anim_stream_by_code. Qed.
+Print Assumptions C05_image_animation_stream_is_draw_model.
+
+Theorem C05_image_animation_pre_step_is_draw_model :
+  forall (wez : bool) W H ha va w h,
+  pre_of (if wez then PrePlaceholder else PreNone) W H ha va w h
+  = if wez then wez_pre W H ha va w h else [].
+Proof. exact pre_of_code. Qed.
+Print Assumptions C05_image_animation_pre_step_is_draw_model.
+
+(** the statement discriminates (1): taking the cursor back after the placeholder by the line
+    count of the UNFORMATTED placeholder is the same function whenever the vertical padding is
+    not effective, and is refuted as soon as it is *)
+Theorem C05_unformatted_placeholder_return_agrees_without_vertical_padding :
+  forall W H ha va w h, H <= h -> pre_unformatted W H ha va w h = pre_of PrePlaceholder W H ha va w h.
+Proof. exact pre_unformatted_agrees_without_vertical_padding. Qed.
+Print Assumptions C05_unformatted_placeholder_return_agrees_without_vertical_padding.
+
+Theorem C05_unformatted_placeholder_return_refuted :
+  exists W' H' ha va ls1 lss,
+    LinesRect all_cells 1 1 ls1 /\ Forall (LinesRect all_cells 1 1) lss /\ 1 < H'
+    /\ DrawFinal 10 8 0 0 (pos 2 0) true (Z.max W' 1) (Z.max H' 1)
+         (pad (Some GSpace) (old_dims W' H' ha va 1 1) 1 (joinlf (lastframe ls1 lss)))
+         (old_anim_stream_by cuu true (Z.max H' 1) (pre_of PrePlaceholder W' H' ha va 1 1) []
+            (format_render W' H' ha va 1 1 (joinlf ls1))
+            (map (fun ls => format_render W' H' ha va 1 1 (joinlf ls)) lss))
+    /\ ~ DrawFinal 10 8 0 0 (pos 2 0) true (Z.max W' 1) (Z.max H' 1)
+         (pad (Some GSpace) (old_dims W' H' ha va 1 1) 1 (joinlf (lastframe ls1 lss)))
+         (old_anim_stream_by cuu true (Z.max H' 1) (pre_unformatted W' H' ha va 1 1) []
+            (format_render W' H' ha va 1 1 (joinlf ls1))
+            (map (fun ls => format_render W' H' ha va 1 1 (joinlf ls)) lss)).
+Proof. exact unformatted_placeholder_return_refuted. Qed.
+Print Assumptions C05_unformatted_placeholder_return_refuted.
+
+(** the statement discriminates (2): the bare [CSI n A] template after every frame is the
+    same function on every box of two or more lines, and is refuted on a padded box of
+    exactly ONE line ([CSI 0 A] is executed as "up one line": [lib/Term.v] [pos1]) *)
+Theorem C05_raw_cursor_up_agrees_above_one_line :
+  forall tty lines pre clear P1 Ps, 2 <= lines ->
+  old_anim_stream_by raw_cuu tty lines pre clear P1 Ps = old_anim_stream_by cuu tty lines pre clear P1 Ps.
+Proof. exact raw_cuu_agrees_above_one_line. Qed.
+Print Assumptions C05_raw_cursor_up_agrees_above_one_line.
+
+Theorem C05_zero_parameter_cursor_up_refuted :
+  exists W' H' ha va ls1 lss,
+    LinesRect all_cells 1 1 ls1 /\ Forall (LinesRect all_cells 1 1) lss /\ Z.max H' 1 = 1
+    /\ DrawFinal 10 8 0 0 (pos 2 0) true (Z.max W' 1) (Z.max H' 1)
+         (pad (Some GSpace) (old_dims W' H' ha va 1 1) 1 (joinlf (lastframe ls1 lss)))
+         (old_anim_stream_by cuu true (Z.max H' 1) [] []
+            (format_render W' H' ha va 1 1 (joinlf ls1))
+            (map (fun ls => format_render W' H' ha va 1 1 (joinlf ls)) lss))
+    /\ ~ DrawFinal 10 8 0 0 (pos 2 0) true (Z.max W' 1) (Z.max H' 1)
+         (pad (Some GSpace) (old_dims W' H' ha va 1 1) 1 (joinlf (lastframe ls1 lss)))
+         (old_anim_stream_by raw_cuu true (Z.max H' 1) [] []
+            (format_render W' H' ha va 1 1 (joinlf ls1))
+            (map (fun ls => format_render W' H' ha va 1 1 (joinlf ls)) lss)).
+Proof. exact zero_parameter_cursor_up_refuted. Qed.
+Print Assumptions C05_zero_parameter_cursor_up_refuted.
+
+(** a verdict 0 of the judge on an animated draw of an image means: the stream written is the
+    model's and the execution passes the padding oracle from every start row *)
+Theorem C05_image_animation_tie_sound :
+  forall c, ocheck c = 0%nat ->
+  omodel c = Some (o_obs c) /\ forallb (ooracle c) (o_rows c) = true /\ o_frames c <> [].
+Proof. exact ocheck_zero_sound. Qed.
+Print Assumptions C05_image_animation_tie_sound.
